@@ -87,6 +87,19 @@ class TestSolver : public SQuIDS {
   }
   void PreDerive(double t) override { calls.push_back({"PreDerive", -1, -1, t}); }
   void set_mix(double th) { params.SetMixingAngle(0, 1, th); }
+  // every query entry point once (node-indexed, by position, with and without caller-supplied buffers, averaged or not)
+  double query_all() {
+    SU_vector op(nsun);
+    for (unsigned k = 0; k < nsun * nsun; k++) op[k] = 0.125 * (k % 5) - 0.25;
+    std::vector<bool> avr(nsun * (nsun - 1) / 2 + 1);
+    SQuIDS::expectationValueDBuffer buf(nsun);
+    double x0 = Get_x(0), q = 0;
+    q += GetExpectationValue(op, 0, 0); q += GetExpectationValue(op, 0, 0, 1e300, avr);
+    q += GetExpectationValueD(op, 0, x0); q += GetExpectationValueD(op, 0, x0, 0.5, avr);
+    q += GetExpectationValueD(op, 0, x0, buf); q += GetExpectationValueD(op, 0, x0, buf, 0.5, avr);
+    SU_vector mid = GetIntermediateState(0, x0); q += mid[0];
+    return q;
+  }
   void fill_initial() {
     for (unsigned ei = 0; ei < nx; ei++) {
       for (unsigned i = 0; i < nrhos; i++) {
@@ -253,6 +266,7 @@ int main() {
         try { s.Evolve(dt4 / 4.0); } catch (std::exception& e) { threw = true; }
         flush_rhs(); calls.clear();
         printf("EVOLVEN %d %ld %.17g\n", threw ? 1 : 0, cur.nrhs, s.Get_t());
+      } else if (cmd == "QUERY") { in >> o; double q = S(o - 1).query_all(); printf("QUERY %.17g\n", q);
       } else if (cmd == "MARK") { puts("MARK");
       } else if (cmd == "TDEP") { int b; in >> o >> b; S(o - 1).tdep = b;
       } else if (cmd == "HMIN") { double x; in >> o >> x; S(o - 1).Set_h_min(x);
